@@ -1723,7 +1723,7 @@ func main() {
 				w.Add("hit.outcome/"+k, v)
 			}
 		},
-		Rule: "case = PRNG StateT[string,int] program skeleton (node budget 8 quick / 16 thorough; the leaves that complete the last combinators may exceed it, see max_program_nodes) over 13 primitives (Pure, FromTry, Get, GetS, GetST, Put, PutWith, Modify, ModifyS, ModifyT, Run, Merge, WithState) and 42 combinators/methods (FlatMap, FlatMapConst, Map, MapT, MapWithState(T), PeekState, Transform, TransformWith, Replace, Flatten, Ap, ApFunc, ApTry, ApOption, Map2, Zip, Map3, Zip3, FlatMap2, Compose, Sequence, SequenceIterator, Concat, 8 Traverse variants, FoldM, 8 Recover* methods), executed from a PRNG initial state with no failure, with exactly one failure at each of its failure points (FromTry, GetST, ModifyT, MapT, MapWithStateT, Transform, ApTry, ApOption=None, failing handlers of RecoverT/RecoverWithStateT/RecoverCaseT) with every pair (failing Recover handler, other failure point; at most 8) and with two PRNG subsets; each execution compares Run, Exec, Eval (result, final state, log of run-time callbacks with their arguments) with a reference interpreter, then wraps the program in each of the 8 Recover variants with equivalent handlers. State = string; every state-changing step appends a token naming the step. Law batches run the explicit instances (Put;Get / Get>>=Put / Modify = Get>>=Put.f / k steps through each sequencing combinator with a failing step / ModifyT failure / the 8 Recover variants on one program). distinct_nontrivial = distinct (program, initial state, failure set) executions in which a failure originated when the state already differed from the initial state AND the final state differs from the failure-free execution of the same skeleton (the failure cut off a later state change), plus left-to-right law instances whose failing step is neither first nor last.",
+		Rule: "case = PRNG StateT[string,int] program skeleton (node budget 8 quick / 16 thorough; the leaves that complete the last combinators may exceed it, see max_program_nodes) over 13 primitives (Pure, FromTry, Get, GetS, GetST, Put, PutWith, Modify, ModifyS, ModifyT, Run, Merge, WithState) and 41 combinators/methods (FlatMap, FlatMapConst, Map, MapT, MapWithState(T), PeekState, Transform, TransformWith, Replace, Flatten, Ap, ApFunc, ApTry, ApOption, Map2, Zip, Map3, Zip3, FlatMap2, Compose, Sequence, SequenceIterator, Concat, 8 Traverse variants, FoldM, 8 Recover* methods), executed from a PRNG initial state with no failure, with exactly one failure at each of its failure points (FromTry, GetST, ModifyT, MapT, MapWithStateT, Transform, ApTry, ApOption=None, failing handlers of RecoverT/RecoverWithStateT/RecoverCaseT) with every pair (failing Recover handler, other failure point; at most 8) and with two PRNG subsets; each execution compares Run, Exec, Eval (result, final state, log of run-time callbacks with their arguments) with a reference interpreter, then wraps the program in each of the 8 Recover variants with equivalent handlers. State = string; every state-changing step appends a token naming the step. Law batches run the explicit instances (Put;Get / Get>>=Put / Modify = Get>>=Put.f / k steps through each sequencing combinator with a failing step / ModifyT failure / the 8 Recover variants on one program). distinct_nontrivial = distinct (program, initial state, failure set) executions in which a failure originated when the state already differed from the initial state AND the final state differs from the failure-free execution of the same skeleton (the failure cut off a later state change), plus left-to-right law instances whose failing step is neither first nor last.",
 		Assumptions: []string{
 			"user callbacks are deterministic and touch nothing but the run's own log",
 			"programs are PRNG samples up to the size bound, not all programs; failure positions of a sampled skeleton are enumerated exhaustively one at a time",
